@@ -12,6 +12,7 @@ mod mon;
 mod refhash;
 mod rng;
 mod sched;
+mod transcript;
 mod world;
 mod xdb;
 
@@ -106,11 +107,13 @@ fn main() {
         "C11" => checks::c11::run(&ctx),
         "C12" => checks::c12::run(&ctx),
         "C13" => checks::c13::run(&ctx),
+        "C14" => checks::c14::run(&ctx),
         "C15" => checks::c15::run(&ctx),
         "C16" => checks::c16::run(&ctx),
         "C17" => checks::c17::run(&ctx),
         "C18" => checks::c18::run(&ctx),
         "C19" => checks::c19::run(&ctx),
+        "C20" => checks::c20::run(&ctx),
         _ => {
             eprintln!("unknown property {prop}");
             2
